@@ -52,6 +52,7 @@ func checkC14(P *Prog, r *Result) {
 		"handle it identically: call, on error exactly one issue and return, else continue; (nested-from-parent) nested struct schemas obtain their provider from the parent provider. " +
 		"Equality of destination and issues across renderings of one record is value-level and not decided."
 	P.checkGetByFieldAgreement(r, "C14/getbyfield-agreement")
+	P.checkProviderFromCheckedValue(r, "C14/provider-from-checked-value")
 	r.floor("C14/getbyfield-agreement", 3)
 	// the key of a field depends only on (field, schema key, the provider's own tag): the canonical return table
 	P.checkTagPriority(r, "C14/key-resolution")
@@ -1157,4 +1158,122 @@ func (P *Prog) checkSourceOpenWhileRead(r *Result) {
 		})
 	}
 	r.floor("C15/source-open-while-read", 1)
+}
+
+// checkProviderFromCheckedValue: the record a provider is built from is the input itself: a value obtained from the
+// input by a comma-ok assertion (`m, ok := x.Interface().(map[string]T)`) reaches a provider constructor only along
+// edges on which that assertion's ok was tested true. Handing on the zero value of a failed assertion builds a provider
+// over a nil map: every field of the input reads as absent, with no issue.
+func (P *Prog) checkProviderFromCheckedValue(r *Result, rule string) {
+	okOf := func(cond ssa.Value, ta *ssa.TypeAssert) (isOK, negated bool) {
+		c := cond
+		neg := false
+		if u, ok := c.(*ssa.UnOp); ok && u.Op == token.NOT {
+			c, neg = u.X, true
+		}
+		if ex, ok := c.(*ssa.Extract); ok && ex.Index == 1 && ex.Tuple == ssa.Value(ta) {
+			return true, neg
+		}
+		return false, false
+	}
+	holdsAt := func(ta *ssa.TypeAssert, gds []guard) bool {
+		for _, gd := range gds {
+			if is, neg := okOf(gd.If.Cond, ta); is && gd.True != neg {
+				return true
+			}
+		}
+		return false
+	}
+	n := 0
+	for _, fn := range P.Funcs {
+		if !strings.HasSuffix(funcPkgPath(fn), "/internals") || fn.Blocks == nil {
+			continue
+		}
+		eachInstr(fn, func(b *ssa.BasicBlock, _ int, in ssa.Instruction) {
+			c, ok := in.(*ssa.Call)
+			if !ok {
+				return
+			}
+			ci := callOf(c)
+			if ci.static == nil || !inModule(funcPkgPath(ci.static)) || ci.static.Signature.Results().Len() == 0 || !P.isDataProviderIface(ci.static.Signature.Results().At(0).Type()) {
+				return
+			}
+			for ai, a := range c.Call.Args {
+				var bad string
+				seen := map[ssa.Value]bool{}
+				// okTrue: a boolean known to be true where v is used and that travels in parallel with v (`m, ok = ...`
+				// re-assigned together and merged by two phis of one block: on the edge that carries m_i, ok is ok_i)
+				trueBoolsAt := func(gds []guard) []ssa.Value {
+					var out []ssa.Value
+					for _, gd := range gds {
+						c := gd.If.Cond
+						pol := gd.True
+						if u, ok := c.(*ssa.UnOp); ok && u.Op == token.NOT {
+							c, pol = u.X, !pol
+						}
+						if pol {
+							out = append(out, c)
+						}
+					}
+					return out
+				}
+				var walk func(v ssa.Value, gds []guard, okTrue []ssa.Value, d int)
+				walk = func(v ssa.Value, gds []guard, okTrue []ssa.Value, d int) {
+					if v == nil || d > 8 || bad != "" {
+						return
+					}
+					seen[v] = true
+					switch x := v.(type) {
+					case *ssa.ChangeType:
+						walk(x.X, gds, okTrue, d+1)
+					case *ssa.MakeInterface:
+						walk(x.X, gds, okTrue, d+1)
+					case *ssa.Phi:
+						for i, e := range x.Edges {
+							pb := x.Block().Preds[i]
+							egds := append(append([]guard{}, guardsOf(pb)...), guardsOfEdge(pb, x.Block())...)
+							var par []ssa.Value
+							for _, t := range append(append([]ssa.Value{}, okTrue...), trueBoolsAt(gds)...) {
+								if tp, isPhi := t.(*ssa.Phi); isPhi && tp.Block() == x.Block() && i < len(tp.Edges) {
+									par = append(par, tp.Edges[i])
+								}
+							}
+							walk(e, egds, par, d+1)
+						}
+					case *ssa.Extract:
+						ta, isTA := x.Tuple.(*ssa.TypeAssert)
+						if !isTA || !ta.CommaOk || x.Index != 0 {
+							return
+						}
+						n++
+						parOK := false
+						for _, t := range okTrue {
+							if ex, isEx := t.(*ssa.Extract); isEx && ex.Index == 1 && ex.Tuple == ssa.Value(ta) {
+								parOK = true
+							}
+						}
+						if !parOK && !holdsAt(ta, gds) {
+							bad = "the value of the comma-ok assertion at " + P.ipos(ta) + " reaches " + fname(ci.static) + " on a path where the assertion was not tested to have succeeded: a provider is built over the zero value and every field of the input reads as absent"
+						}
+					}
+				}
+				walk(a, guardsOf(b), nil, 0)
+				if bad != "" {
+					r.bad(rule, fmt.Sprintf("%s#%s.arg%d", fname(fn), fname(ci.static), ai), P.ipos(in), bad)
+				} else if len(seen) > 0 {
+					for v := range seen {
+						if ex, isEx := v.(*ssa.Extract); isEx {
+							if ta, isTA := ex.Tuple.(*ssa.TypeAssert); isTA && ta.CommaOk {
+								r.ok(rule, fmt.Sprintf("%s#%s.arg%d", fname(fn), fname(ci.static), ai), P.ipos(in), "the asserted input reaches the provider only where the assertion succeeded")
+								break
+							}
+						}
+					}
+				}
+			}
+		})
+	}
+	if n == 0 {
+		r.broken("vacuous: no comma-ok assertion flows into a provider constructor")
+	}
 }
